@@ -5,6 +5,7 @@
 -/
 import PyTough.Proofs.T2DataFile
 import PyTough.Proofs.T2DataGener
+import PyTough.Proofs.T2DataParam
 namespace Proofs.T2
 open Py Model Model.T2 Proofs Proofs.Incon
 open Gen.Sections (Rec)
